@@ -562,6 +562,10 @@ class StickyAssignmentExecutor:
 
                 if (
                     partition in self.previous_assignment
+                    # the previous owner may have left the group or dropped the
+                    # topic from its subscription since it reported the partition
+                    and self.previous_assignment[partition].consumer
+                    in self.partition_to_all_potential_consumers[partition]
                     and len(self.current_assignment[consumer])
                     > len(
                         self.current_assignment[
